@@ -126,3 +126,9 @@ def ts_dec(t):
         import datetime
         return datetime.datetime.fromisoformat(t["dt"])
     return t
+
+
+def ca_for(df, k):
+    """capability (DF17: any of 0..7) / control field (DF18: 5 as before, 0, 1 = ADS-B from non-transponder devices,
+    6 = ADS-R: the codes whose ME field has the DF17 layout) rotating with k."""
+    return k % 8 if df == 17 else (5, 0, 1, 6)[k % 4]
